@@ -3,6 +3,7 @@ C08 — Every point is routed to exactly one, well-defined shard.
 Theorems over `InfluxVerif.Routing` (sgList + MapShards) and the metadata model.
 -/
 import InfluxVerif.Model.Routing
+import InfluxVerif.Props.C06
 import Mathlib.Data.List.Basic
 
 namespace InfluxVerif.Routing
@@ -178,6 +179,33 @@ theorem routed_group_is_meta_group (rp : RP) (hd : Disjoint rp.groups) (t : Int)
   | some g' =>
     obtain ⟨hm, hdel, hs', he', _⟩ := groupAt_sound rp t g' hga
     rw [hd g' hm g hg hdel hl t hs' he' hs he]
+
+/-- C06's invariant (no two groups of a policy serve one instant) gives the premise -/
+theorem disjoint_of_groupsOK (gs : List SG) (h : GroupsOK gs) : Disjoint gs := by
+  intro a ha b hb hda hdb t h1 h2 h3 h4
+  by_contra hne
+  haveI : Std.Symm Apart := ⟨fun _ _ hxy => Apart.symm hxy⟩
+  have hap : Apart a b := h.2.forall ha hb hne
+  exact hap t ⟨covers_of a (h.1 a ha) t hda h1 h2, covers_of b (h.1 b hb) t hdb h3 h4⟩
+
+theorem effEnd_le_stop (g : SG) (h : g.WF) : g.effEnd ≤ g.stop := by
+  unfold SG.effEnd
+  cases ht : g.trunc with
+  | none => simp
+  | some tr => exact (h.2 tr ht).2
+
+/-- **The routed group is the metadata's group, along every command log.** After any
+sequence of valid metadata commands, in every retention policy, a live group whose effective
+range holds `t` is what `ShardGroupByTimestamp` designates: the premise of
+`routed_group_is_meta_group` is discharged by `groups_never_overlap`. -/
+theorem routed_group_is_meta_group_always (auto : Bool) (d : Data) (log : Log)
+    (hv : ∀ e ∈ log, e.1.valid) (hok : DataOK d)
+    (db : DB) (hdb : db ∈ (run auto d log).dbs) (rp : RP) (hrp : rp ∈ db.rps)
+    (t : Int) (g : SG) (hg : g ∈ rp.groups) (hl : g.deleted = false) (hs : g.start ≤ t) (he : t < g.effEnd) :
+    rp.groupAt t = some g := by
+  have hok' := groups_never_overlap auto d log hv hok db hdb rp hrp
+  exact routed_group_is_meta_group rp (disjoint_of_groupsOK _ hok'.2) t g hg hl hs he
+    (effEnd_le_stop g (hok'.2.1 g hg))
 
 /-- the shard inside the group is chosen by the series key's hash alone -/
 theorem shard_by_key_only (g : SG) (h₁ h₂ : Nat) (h : h₁ = h₂) : shardFor g h₁ = shardFor g h₂ := by
